@@ -187,6 +187,7 @@ def SIGNS(a, b):
 
 class LName:
     """a name handed to check(): whether it is empty and whether it ends with an implicit digest are symbolic"""
+    opaque_value = True          # stands for an unknown value of a library type: foreign contracts do not know it
 
     def __init__(self, run, label, stripped_of=None):
         self.run, self.label, self.stripped_of = run, label, stripped_of
